@@ -4,11 +4,16 @@
 #include "btcdeb.cpp"
 #undef main
 #include <cstring>
+namespace {
+// svf_get_flag is an internal helper whose parameter list may be refactored: accept (name) and (name, length)
+template <class F> auto verif_get(F f, const char* n, int) -> decltype((unsigned)f(n)) { return f(n); }
+template <class F> auto verif_get(F f, const char* n, long) -> decltype((unsigned)f(n, strlen(n))) { return f(n, strlen(n)); }
+}
 extern "C" {
 __attribute__((noinline)) unsigned w_svf_parse(unsigned in_flags, const char* mod) { return svf_parse_flags(in_flags, mod); }
 // what main() does for -f<mod>
 __attribute__((noinline)) unsigned w_modify_flags(const char* mod) { unsigned int flags = STANDARD_SCRIPT_VERIFY_FLAGS; flags = svf_parse_flags(flags, mod); return flags; }
-__attribute__((noinline)) unsigned w_svf_get(const char* name) { return svf_get_flag(name); }
+__attribute__((noinline)) unsigned w_svf_get(const char* name) { return verif_get(svf_get_flag, name, 0); }
 __attribute__((noinline)) unsigned w_std_flags() { return STANDARD_SCRIPT_VERIFY_FLAGS; }
 __attribute__((noinline)) unsigned w_svf_string(unsigned flags, char* out) {
     std::string s = svf_string(flags, ",");
